@@ -119,6 +119,19 @@ func (s *c13State) writePolicy(p *c13Policy) {
 			s.FS[d+f+".bz2"] = bzip2Bytes(p.Code[i])
 		}
 	}
+	// Other devices of the policy: two dual-stack ones, listed before
+	// the device under test in code/ipv6/ ("a-dual") and in code/
+	// ("k-dual" sorts behind the directory "ipv6"). Their own state
+	// is not tracked.
+	for _, by := range []string{"a-dual", "k-dual"} {
+		for _, f := range []string{"code/" + by, "code/ipv6/" + by} {
+			if p.Form == 0 {
+				s.FS[d+f] = "bystander\n"
+			} else {
+				s.FS[d+f+".bz2"] = bzip2Bytes("bystander\n")
+			}
+		}
+	}
 	// Info file, ignored by missing-approve because of '.' in name.
 	info := run.InfoJSON("Linux", c13Dev)
 	if p.Form == 0 {
